@@ -2148,6 +2148,8 @@ def add_declarations(parent, node):
         return
     if not node["declarations"]:
         return
+    if not isinstance(node["declarations"], list):
+        raise RuntimeError("declarations must be a list")
 
     for subnode in node["declarations"]:
         if "block" in subnode:
@@ -2200,6 +2202,8 @@ def create_library_from_dictionary(node):
     """
 
     if "copyright" in node:
+        if not isinstance(node["copyright"], list):
+            raise RuntimeError("copyright must be a list")
         clean_list(node["copyright"])
 
     clean_dictionary(node)
@@ -2207,6 +2211,8 @@ def create_library_from_dictionary(node):
 
     if "typemap" in node:
         # list of dictionaries
+        if not isinstance(node["typemap"], list):
+            raise RuntimeError("typemap must be a list")
         for subnode in node["typemap"]:
             # Update fields for a type. For example, set cpp_if
             if "type" not in subnode or "fields" not in subnode:
